@@ -207,6 +207,7 @@ func init() {
 	register(&Prop{
 		ID: "C02",
 		Rule: "cases = instants (0..2^62, step boundaries +-2 s, 2^31/2^32 edges) x nanoseconds x locations x monotonic readings x periods (0,1,..,2^32, larger than the instant) x digits x hashes x arbitrary Skew (unused by generation), each GenerateTOTP result compared with the reference HOTP at floor(unix/period); " +
+			"a reduced differential against the same reference models also runs in a binary built for GOARCH=386 (32-bit int/uint; observed.evaluations_on_a_32bit_build); " +
 			"distinct_nontrivial counts distinct (key,unix second,period,digits,hash) tuples with supported parameters whose code was compared, plus distinct defaults-consistency tuples",
 		Run: func(c *Ctx) {
 			rng := c.RNG.Fork(2)
@@ -283,6 +284,7 @@ func init() {
 			}
 			parallelJudge(c, groups, judgeSameSecond)
 			c02StepWalk(c)
+			runArch386(c)
 			// step pairs on one goroutine with one secret and parameter set: instant A, then instant B in another
 			// step whose monotonic reading disagrees with its wall clock (equal to A's reading, or A's plus/minus a
 			// little, or far away) - the code must follow B's Unix second alone
